@@ -6,6 +6,7 @@ import (
 	"encoding/hex"
 	"fmt"
 	"math/big"
+	"strings"
 )
 
 var (
@@ -89,7 +90,8 @@ func FillTx(tx *Tx, blockNum, txIdx, salt uint64) {
 	tx.ContractAddress = Addr(k("contractAddress"))
 }
 
-// FillBlock sets Time = 1_600_000_000 + Num*12 + salt%7 and Bloom (256 non-zero bytes
+// FillBlock sets Time = 1_600_000_000 + Num*12 + salt%7 and Bloom (256 non-zero bytes; Build/Extend/Reorg
+// replace it by 256 zero bytes when the block has no logs, as real nodes do;
 // derived from Num and salt). Hash/Parent belong to Seal.
 func FillBlock(b *Block, salt uint64) {
 	b.Time = 1_600_000_000 + b.Num*12 + salt%7
@@ -143,7 +145,11 @@ func CheckDistinct(c *Chain) error {
 	for _, b := range c.Blocks {
 		w := fmt.Sprintf("b%d.", b.Num)
 		bs(w+"Hash", b.Hash)
-		bs(w+"Bloom", b.Bloom)
+		if b.hasLogs() {
+			bs(w+"Bloom", b.Bloom)
+		} else if len(b.Bloom) != 256 || strings.Trim(string(b.Bloom), "\x00") != "" {
+			fail("simeth: %sBloom of a block without logs must be 256 zero bytes", w)
+		}
 		u(w+"Time", b.Time, true)
 		for _, t := range b.Txs {
 			w := fmt.Sprintf("b%d.t%d.", b.Num, t.Idx)
